@@ -319,6 +319,7 @@ func (fr *Frame) loopHead(li *loopInfo, b *ssa.BasicBlock, phis []*ssa.Phi, pred
 	// 1. invariants hold on entry
 	if fr.isTop {
 		env := fr.specEnv(st, b, entryPhi)
+		env.loopPre = st
 		for _, c := range invs {
 			f := env.bool(c.Expr)
 			fc.addOblig(&Oblig{Name: fmt.Sprintf("%s/inv-entry#L%d.%d", spec.Name, li.ord, c.Ord), Kind: "inv-entry", Tags: c.Tags,
@@ -362,6 +363,7 @@ func (fr *Frame) loopHead(li *loopInfo, b *ssa.BasicBlock, phis []*ssa.Phi, pred
 	// 3. assume invariants
 	if fr.isTop {
 		env := fr.specEnv(nst, b, nil)
+		env.loopPre = li.preSt
 		for _, c := range invs {
 			f := env.bool(c.Expr)
 			fc.assume(sImp(fr.reach[b], f), "invariant "+c.Text)
@@ -395,6 +397,7 @@ func (fr *Frame) backEdge(b, h *ssa.BasicBlock, cond string, st *State) {
 		}
 	}
 	env := fr.specEnv(st, h, over)
+	env.loopPre = li.preSt
 	for _, c := range fc.spec.Invs {
 		if c.Loop != li.ord || !fc.modeOK(c) {
 			continue
